@@ -596,12 +596,63 @@ func TestC08(t *testing.T) {
 			}
 		}
 	})
+	// containers longer than 64 KiB nested in other containers (skipped in several
+	// steps by the binary reader): every program up to length 4
+	EnumerateSharded(t, p, "big-nested-containers", func(shard, nshards int, yield func(C08Case) bool) {
+		big := make([]byte, 70000)
+		for i := range big {
+			big[i] = byte('a' + i%26)
+		}
+		var ints []model.Value
+		for i := 0; i < 24000; i++ {
+			ints = append(ints, model.Int64V(int64(i*7919)))
+		}
+		docs := [][]model.Value{
+			{model.ListV(model.StructV(model.Field{Name: model.S("a"), Val: model.BlobV(big)}, model.Field{Name: model.S("b"), Val: model.ListV(model.Int64V(1), model.StrV("x"))}), model.Int64V(2)), model.Int64V(3)},
+			{model.StructV(model.Field{Name: model.S("p"), Val: model.ListV(model.StrV(string(big[:66000])), model.Int64V(1))}, model.Field{Name: model.S("q"), Val: model.SexpV(ints...)}, model.Field{Name: model.S("r"), Val: model.Int64V(4)}), model.Int64V(5)},
+		}
+		alphabet := []int{0, 1, 3, 2}
+		n := 0
+		for _, vals := range docs {
+			for _, binary := range []bool{true, false} {
+				var d DocCase
+				if binary {
+					d = encodeDoc(vals, nil)
+				} else {
+					d = printDoc(vals, nil)
+				}
+				var rec func(ops []int) bool
+				rec = func(ops []int) bool {
+					if len(ops) > 0 {
+						n++
+						if n%nshards == shard {
+							if !yield(C08Case{Doc: d.Doc, Vals: d.Vals, Binary: binary, Ops: append([]int{}, ops...)}) {
+								return false
+							}
+						}
+					}
+					if len(ops) == 4 {
+						return true
+					}
+					for _, a := range alphabet {
+						if !rec(append(ops, a)) {
+							return false
+						}
+					}
+					return true
+				}
+				if !rec(nil) {
+					return
+				}
+			}
+		}
+	})
 	RunProp(t, p)
 }
 
 func init() {
 	Describe("C08",
-		"cases: (document, navigation program). Documents are generated value streams (generator of C01 plus containers filled with skip-hostile scalars: strings, symbols, clobs, blobs, annotations and field names made of brackets, quotes and comment openers) rendered by the reference text printer with random spelling (comments, long strings, escapes) or by the reference binary encoder with random representation (length forms, NOP pads, wrappers), sometimes delivered one byte per Read. Programs are 1-40 steps over {Next, StepIn, StepOut, full read of the current value, an accessor of the wrong type, re-query of Type/IsNull/Annotations/FieldName} including StepIn on scalars and nulls and StepOut at top level, followed by a plain traversal of everything that is left. A reference cursor over the value tree of a plain full traversal predicts every Next result, the attributes of every value reached and every value read. Plus every program up to length 6 (7 in thorough) over {Next, StepIn, StepOut, read} on ~30 small hostile documents in both formats. Non-trivial: the program skipped an unread value, left a container early, or issued a refused call. Distinct by digest(document, program).",
+		"cases: (document, navigation program). Documents are generated value streams (generator of C01 plus containers filled with skip-hostile scalars: strings, symbols, clobs, blobs, annotations and field names made of brackets, quotes and comment openers) rendered by the reference text printer with random spelling (comments, long strings, escapes) or by the reference binary encoder with random representation (length forms, NOP pads, wrappers), sometimes delivered one byte per Read. Programs are 1-40 steps over {Next, StepIn, StepOut, full read of the current value, an accessor of the wrong type, re-query of Type/IsNull/Annotations/FieldName} including StepIn on scalars and nulls and StepOut at top level, followed by a plain traversal of everything that is left. A reference cursor over the value tree of a plain full traversal predicts every Next result, the attributes of every value reached and every value read. Plus every program up to length 6 (7 in thorough) over {Next, StepIn, StepOut, read} on ~30 small hostile documents in both formats, and every program up to length 4 on two documents whose nested containers exceed 64 KiB. Non-trivial: the program skipped an unread value, left a container early, or issued a refused call. Distinct by digest(document, program).",
 		"oracle: metamorphic — ion-go's own plain full traversal of the same bytes, which must first agree with the generated model (otherwise the case is discarded as C02/C03's business)",
 		"Next after the end of a container and StepIn with no current value are not issued (not among the refusals the property lists)",
 		"a panic during navigation ends the case and is counted under discarded (C06's business)",
